@@ -23,7 +23,9 @@ TECHNIQUE = ("stateful property-based testing: Hypothesis RuleBasedStateMachine 
              "per DISSECT_STREAM_BUFFER_SIZE value, against a (byte array, position) reference model after every step")
 RULE = (
     "One Hypothesis rule-based state machine per stream class (QCow2, VMDK hosted-sparse / SE-sparse / multi-extent handle "
-    "lists, VHDX, VHD dynamic / fixed, VDI, HDS, Parallels StorageStream). @initialize draws an image sized to overflow the "
+    "lists, VHDX, VHD dynamic / fixed, VDI, HDS, Parallels StorageStream, and QCow2 with internal snapshots where a 'view' rule "
+    "switches between the active view and lazily opened snapshot views that share handle, header and L2 cache, each with its own "
+    "position and model). @initialize draws an image sized to overflow the "
     "class's caches (> 128 L2 / grain tables, > 4096 BAT entries) whose size is not a multiple of the buffer; rules: seek "
     "SET/CUR/END (incl. beyond EOF, negative clamps, invalid negative SET), read(n) for n in {0, 1, small, align±1, "
     "multi-unit, > remaining, -1}, readinto, peek, readoffset, readall, tell, read_sectors, re-reading an earlier range, "
@@ -40,7 +42,7 @@ ASSUMPTIONS = [
 ]
 REPLAY_ALL_VARIANTS = True
 
-CLASSES = ["qcow2", "vmdk-kdmv", "vmdk-ses", "vmdk-multi", "vhdx", "vhd-dyn", "vhd-fixed", "vdi", "hds", "storage"]
+CLASSES = ["qcow2", "vmdk-kdmv", "vmdk-ses", "vmdk-multi", "vhdx", "vhd-dyn", "vhd-fixed", "vdi", "hds", "storage", "qcow2-snap"]
 BUFSIZE = int(os.environ.get("DISSECT_STREAM_BUFFER_SIZE") or io.DEFAULT_BUFFER_SIZE)
 
 
@@ -108,6 +110,10 @@ def image_spec(draw, cls, tier):
         else:
             spec = draw(c01.qcow2_spec(tier, allow_backing=True))
         return spec
+    if cls == "qcow2-snap":
+        from hv.props import c07
+
+        return draw(c07.qcow2_snap(tier))["image"]
     if cls in ("vmdk-kdmv", "vmdk-ses"):
         kind = "kdmv" if cls == "vmdk-kdmv" else "sesparse"
         spec = draw(c02.extent_spec(tier, kind=kind))
@@ -184,6 +190,23 @@ def open_image(cls, spec) -> Opened:
             raise OpenFailed(err)
         cs = 1 << spec["cluster_bits"]
         return Opened(q, c01.model_of(spec, built[3]), spec["size"], cs, table_span=cs * (cs // 8))
+    if cls == "qcow2-snap":
+        # the active view plus one view per internal snapshot; the views share the file handle, the header object and the
+        # L2-table cache, and are opened lazily by the `view` operation (so that they are created at any point of a history)
+        built = bq.build(spec)
+        q, err = c01.open_image(spec, built)
+        if err:
+            raise OpenFailed(err)
+        snaps, err = lib(lambda: list(q.snapshots))
+        if err:
+            raise OpenFailed(err)
+        cs = 1 << spec["cluster_bits"]
+        o = Opened(q, c01.model_of(spec, built[3], "active"), spec["size"], cs, table_span=cs * (cs // 8))
+        o.views = [{"name": "active", "stream": q, "model": o.model, "pos": 0, "open": None}]
+        for i, (sn, ss) in enumerate(zip(snaps, spec["snapshots"])):
+            o.views.append({"name": f"snap{i}", "stream": None, "pos": 0, "open": sn.open,
+                            "model": c01.model_of(spec, built[3], "active" if ss.get("share_active") else i)})
+        return o
     if cls in ("vmdk-kdmv", "vmdk-ses"):
         from dissect.hypervisor.disk.vmdk import VMDK
 
@@ -282,6 +305,8 @@ class Runner:
         self.cls = cls
         self.image = image
         self.o = open_image(cls, image)
+        self.cur = 0  # index of the view the operations address (classes with several views of one image)
+        self.view_switches = 0
         self.pos = 0
         self.failure = None  # (sig, message)
         self.data_ops = 0
@@ -378,6 +403,17 @@ class Runner:
                 got = self.o.read_sectors(sec, cnt)
                 self.note_read(sec * ss, cnt * ss)
                 self.expect_bytes(f"read_sectors({sec},{cnt})", got, sec * ss, cnt * ss)
+            elif name == "view":
+                views = getattr(self.o, "views", None)
+                if views:
+                    views[self.cur]["pos"] = self.pos
+                    self.cur = op[1] % len(views)
+                    v = views[self.cur]
+                    if v["stream"] is None:
+                        v["stream"] = v["open"]()
+                    self.o.stream, self.o.model, self.pos = v["stream"], v["model"], v["pos"]
+                    s = self.o.stream
+                    self.view_switches += 1
             elif name == "sweep":
                 _, start, stride, count, delta, n = op
                 for i in range(count):
@@ -413,6 +449,9 @@ class Runner:
         except OpenFailed as e:
             self.fail("exc-open", str(e))
             return
+        if self.cur:
+            v2 = o2.views[self.cur]
+            o2.stream = v2["open"]()
         for off, n in ranges:
             a = self.o.stream.readoffset(off, n)
             b = o2.stream.readoffset(off, n)
@@ -668,6 +707,12 @@ def make_machine(cls, tier, col):
             start = (k % 3) * stride
             self.do(["sweep", start, stride, count, delta, n])
 
+        @precondition(lambda self: self.alive() and getattr(self.r.o, "views", None))
+        @rule(i=st.integers(0, 3))
+        def switch_view(self, i):
+            """Address another view of the same image (QCOW2 active view / internal snapshots); each view has its own position."""
+            self.do(["view", i])
+
         @rule()
         def tell(self):  # always enabled: once a failure is recorded the other rules switch off and this one idles
             self.do(["tell"])
@@ -690,6 +735,8 @@ def make_machine(cls, tier, col):
             out.cls(cls, f"buf={BUFSIZE}", f"ops={min(len(self.ops) // 10 * 10, 80)}+")
             if any(o[0] == "sweep" for o in self.ops):
                 out.cls("has-sweep")
+            if self.r.view_switches:
+                out.cls(f"view-switches={min(self.r.view_switches, 5)}+" if self.r.view_switches >= 5 else f"view-switches={self.r.view_switches}")
             col.handle(spec, out)
 
     StreamMachine.__name__ = f"StreamMachine_{cls.replace('-', '_')}"
